@@ -25,6 +25,9 @@ type gor struct {
 	depth   int
 	frame   *frame
 	what    string
+	parent  *gor
+	held    map[*syncSt]int // locks held: 1 read, 2 write
+	vc      vclock          // happens-before through fork/join/channel edges (race detector)
 }
 
 type scheduler struct {
@@ -35,6 +38,7 @@ type scheduler struct {
 }
 
 type echan struct {
+	vc     vclock
 	buf    []value
 	cap    int
 	closed bool
@@ -49,7 +53,7 @@ type sendItem struct {
 
 func newScheduler() *scheduler {
 	s := &scheduler{}
-	g := &gor{id: 0, wake: make(chan struct{}, 1), what: "main"}
+	g := &gor{id: 0, wake: make(chan struct{}, 1), what: "main", held: map[*syncSt]int{}, vc: vclock{0: 1}}
 	s.gs = []*gor{g}
 	s.cur = g
 	return s
@@ -58,7 +62,10 @@ func newScheduler() *scheduler {
 // spawn starts a new target goroutine; it first runs when the spawner blocks.
 func (i *interpreter) spawn(fn value, args []value, pos token.Pos) {
 	s := i.sched
-	g := &gor{id: len(s.gs), wake: make(chan struct{}, 1), what: "spawned, not yet run"}
+	g := &gor{id: len(s.gs), wake: make(chan struct{}, 1), what: "spawned, not yet run", parent: s.cur, held: map[*syncSt]int{}}
+	g.vc = s.cur.vc.copy()
+	g.vc[g.id] = 1
+	s.cur.vc[s.cur.id]++
 	s.gs = append(s.gs, g)
 	s.wg.Add(1)
 	go func() {
@@ -239,6 +246,7 @@ func (i *interpreter) chanSend(ch *echan, v value) {
 	if ch == nil {
 		i.block(func() bool { return false }, "send on nil channel")
 	}
+	i.sched.cur.release(&ch.vc)
 	if ch.closed {
 		panic(targetPanic{iface{i.runtimeErrorString, "send on closed channel"}})
 	}
@@ -286,6 +294,7 @@ func (i *interpreter) chanRecv(ch *echan) (value, bool) {
 		i.block(ch.canRecv, "chan receive")
 		ch.recvW--
 	}
+	i.sched.cur.acquire(ch.vc)
 	return ch.takeRecv()
 }
 
@@ -296,6 +305,7 @@ func (i *interpreter) chanClose(ch *echan) {
 	if ch.closed {
 		panic(targetPanic{iface{i.runtimeErrorString, "close of closed channel"}})
 	}
+	i.sched.cur.release(&ch.vc)
 	ch.closed = true
 }
 
